@@ -1,5 +1,6 @@
 import VlsModel.Lemmas.Onchain
 import VlsModel.Props.C12
+import VlsModel.Lemmas.Wallet
 /-
 C08 — On-chain spends lose at most a bounded fee and fund only validated channels.
 
@@ -525,5 +526,123 @@ example :
       ⟨2, 200, 800, 1, [false], [3501000], [], 2,
         [⟨3000000, 0, some false, false, .no, some ⟨3000000, true, true, 0, 1⟩⟩,
          ⟨500000, 0, some false, false, .no, none⟩]⟩ true).2 = .refused .nonMalleable := by decide
+
+/-! ## Which scripts are credited: `Wallet::can_spend` / `allowlist_contains` as decision logic (Model/Wallet.lean)
+
+Until round 8 the three wallet facts of an output (`canSpend`, `scriptAllow`, `xpub`) were inputs of the model.  Here they
+are *computed* from the structure of the script (which address form of which derived key), the output's derivation path,
+the key-derivation style and the allowlist, by the model of `impl Wallet for Node` (`Onchain.outOfScript`; the driver model uses it too: the harness sends script
+descriptors, not facts); the harness group `C08Wallet` runs the wallet model against the real `Node`.  `C08_credited_scripts` then says what an accepted transaction can pay to. -/
+section WalletLogic
+open VlsModel.Wallet
+
+/-- **C08 (destinations)**: an output classified *wallet* pays one of the three segwit forms of the node's own key at
+    the output's path (of the length the style admits); *xpubAllow* pays a p2wpkh / p2pkh / p2tr child, at that path, of
+    an allowlisted extended key; *scriptAllow* pays a listed script.  Nothing else is credited without being a validated
+    channel (`C08_channel`). -/
+theorem C08_credited_scripts (style : Style) (allow : List Allowable) (value : Nat) (path : List Nat) (s : Script)
+    (chan : Option ChanFacts) :
+    (classify (outOfScript style allow value path s chan) = .wallet →
+        path ≠ [] ∧ PathFits style path ∧ SpendableForm s (.account path)) ∧
+    (classify (outOfScript style allow value path s chan) = .xpubAllow →
+        path ≠ [] ∧ path.any hardened = false ∧ ∃ j, .xpub j ∈ allow ∧ XpubForm s (xpubKey j path)) ∧
+    (classify (outOfScript style allow value path s chan) = .scriptAllow → .script s ∈ allow) := by
+  unfold classify outOfScript
+  by_cases hp : 0 < path.length
+  · have hne : path ≠ [] := by intro h; simp [h] at hp
+    simp only [hp, if_true]
+    cases hcs : canSpend style path s with
+    | none => simp
+    | some b =>
+      cases b with
+      | true =>
+        refine ⟨fun _ => (canSpend_true style path s).mp hcs, by simp, by simp⟩
+      | false =>
+        cases hsa : allow.contains (Allowable.script s) with
+        | true => simp only [if_true]; refine ⟨by simp, by simp, fun _ => by simpa using hsa⟩
+        | false =>
+          simp only [Bool.false_eq_true, if_false]
+          cases hx : xpubLoop path s allow with
+          | yes =>
+            refine ⟨by simp, fun _ => ?_, by simp⟩
+            obtain ⟨h1, h2⟩ := (xpubLoop_yes path s allow).mp hx
+            exact ⟨hne, h1, h2⟩
+          | no => simp
+          | panic => simp
+  · simp only [hp, if_false]
+    cases hsa : allow.contains (Allowable.script s) with
+    | true => simp only [if_true]; refine ⟨by simp, by simp, fun _ => by simpa using hsa⟩
+    | false => cases chan <;> simp
+
+/-- the theorem is not vacuous: a change output at path [7] (native style), an allowlisted xpub child and a listed
+    script are classified as such; p2pkh to the own key with a path is a bogus destination -/
+example :
+    classify (outOfScript .native [] 1000 [7] (.addr .p2wpkh (.account [7])) none) = .wallet
+    ∧ classify (outOfScript .native [.xpub 1] 1000 [7] (.addr .p2pkh (.xpub 1 [7])) none) = .xpubAllow
+    ∧ classify (outOfScript .native [.script (.other 3)] 1000 [] (.other 3) none) = .scriptAllow
+    ∧ classify (outOfScript .native [] 1000 [7] (.addr .p2pkh (.account [7])) none) = .bogusPath
+    ∧ classify (outOfScript .native [] 1000 [] (.addr .p2wpkh (.account [7])) none) = .unknown := by decide
+
+/-- an output as the request presents it: value, derivation path, script, and the channel found for its outpoint -/
+structure OutDesc where
+  value : Nat
+  path : List Nat
+  script : Script
+  chan : Option ChanFacts
+
+def OutDesc.facts (style : Style) (allow : List Allowable) (d : OutDesc) : Out :=
+  outOfScript style allow d.value d.path d.script d.chan
+
+/-- what the property allows an output of an accepted transaction to be -/
+def OutDesc.PaysOk (style : Style) (allow : List Allowable) (d : OutDesc) : Prop :=
+  (d.path ≠ [] ∧ PathFits style d.path ∧ SpendableForm d.script (.account d.path)) ∨
+  .script d.script ∈ allow ∨
+  (d.path ≠ [] ∧ d.path.any hardened = false ∧ ∃ j, .xpub j ∈ allow ∧ XpubForm d.script (xpubKey j d.path)) ∨
+  (∃ c, d.chan = some c ∧ ChanOk (d.facts style allow) c)
+
+theorem classify_channel (o : Out) (c : ChanFacts) (h : classify o = .channel c) : o.chan = some c := by
+  unfold classify at h
+  split at h
+  · split at h <;> try cases h
+    split at h <;> try cases h
+    split at h <;> cases h
+  · split at h
+    · cases h
+    · split at h
+      · rename_i c' hc; cases h; exact hc
+      · cases h
+
+/-- **C08 (value, at the level of scripts)**: when `validate_onchain_tx` returns `Ok` under a strict filter, every output
+    pays a segwit form of the node's own key at its path, a listed script, a child of an allowlisted extended key, or is
+    the funding output of a validated channel — and the fee bound of `C08_value` holds -/
+theorem C08_value_scripts (p : Policy) (r : Req) (w nb : Nat) (hs : p.flt.Strict) (hdev : p.devDisable = false)
+    (style : Style) (allow : List Allowable) (ds : List OutDesc) (hr : r.outs = ds.map (OutDesc.facts style allow))
+    (h : validateOnchain p r w = .ok nb) :
+    (∀ d ∈ ds, d.PaysOk style allow) ∧ 0 < w ∧ (nb * 1000 + 999) / w ≤ p.maxFeerate := by
+  obtain ⟨hacc, _, _, hw, hq⟩ := C08_value p r w nb hs hdev h
+  refine ⟨?_, hw, hq⟩
+  intro d hd
+  have ha : Accepted (d.facts style allow) := hacc _ (by rw [hr]; exact List.mem_map_of_mem hd)
+  have hc := C08_credited_scripts style allow d.value d.path d.script d.chan
+  unfold Accepted at ha
+  unfold OutDesc.PaysOk
+  cases hcl : classify (d.facts style allow) with
+  | wallet => exact Or.inl (hc.1 hcl)
+  | xpubAllow => exact Or.inr (Or.inr (Or.inl (hc.2.1 hcl)))
+  | scriptAllow => exact Or.inr (Or.inl (hc.2.2 hcl))
+  | channel c =>
+    rw [hcl] at ha
+    exact Or.inr (Or.inr (Or.inr ⟨c, classify_channel _ c hcl, ha⟩))
+  | unknown => rw [hcl] at ha; exact absurd ha (by simp)
+  | bogusPath => rw [hcl] at ha; exact absurd ha (by simp)
+  | fault => rw [hcl] at ha; exact absurd ha (by simp)
+
+/-- not vacuous: a change output to the own key at path [7] and a listed script, with a 1000 sat fee -/
+example : validateOnchain ⟨333333, false, Filter.default⟩
+    ⟨2, 100, 437, 1, [true], [101000], [], 2,
+      [(⟨60000, [7], .addr .p2wpkh (.account [7]), none⟩ : OutDesc).facts .native [.script (.other 3)],
+       (⟨40000, [], .other 3, none⟩ : OutDesc).facts .native [.script (.other 3)]]⟩ 437 = .ok 1000 := by decide
+
+end WalletLogic
 
 end VlsModel.Props.C08
